@@ -559,3 +559,11 @@ Example osc_ideal_dec_accepts_genuine :
   | None => False
   end.
 Proof. vm_compute. reflexivity. Qed.
+
+(* an OSCORE-only resource only ever sees verified requests *)
+Theorem osc_only_gate dec s o m' :
+  osc_server_deliver dec s true o = Some m' -> osc_unprotect_req_gen dec s o = Some m'.
+Proof.
+  unfold osc_server_deliver. destruct (osc_find_opt OSC_OPT (m_opts o)); [|discriminate].
+  destruct (osc_is_request (m_code o)); [tauto|discriminate].
+Qed.
